@@ -3,6 +3,7 @@ package shardfix
 import (
 	"fmt"
 	"sort"
+	"strings"
 	"sync/atomic"
 
 	"github.com/XiaoMi/Gaea/models"
@@ -122,6 +123,13 @@ func (f *Fixture) PlanStmt(db, sql string, stmt ast.StmtNode) (p plan.Plan, err 
 	}()
 	p, err = plan.BuildPlan(stmt, f.PhyDBs, db, sql, f.Router, f.Seqs, nil)
 	return
+}
+
+// IsRuntimePanic tells whether the panic text returned by Plan is a Go runtime
+// error (index out of range, nil dereference, ...) rather than one of Gaea's
+// deliberate panic(error) rejections.
+func IsRuntimePanic(pan string) bool {
+	return strings.HasPrefix(pan, "runtime error:") || strings.Contains(pan, "invalid memory address") || strings.Contains(pan, "interface conversion")
 }
 
 // Place returns the table index INSERT routing gives a key whose literal
